@@ -2,22 +2,26 @@
    request / model input:  (mem chg ops sched)
      mem    one atom per member of the store in output order (resources, then datasets):
             0 inline resource, 1 stand-off plain-text resource, 2 stand-off .json resource,
-            3 inline dataset, 4 stand-off dataset, 5 stand-off dataset whose file cannot be written
+            3 inline dataset, 4 stand-off dataset, 5 stand-off dataset whose file cannot be written,
+            6 stand-off plain-text resource whose file cannot be written (resources first: 0 1 2 6 before 3 4 5)
      chg    one atom per member: 1 = the changed flag is set when the threads start
      ops    one entry (kind idx variant) per thread: kind 0 pure reader (variant says which one;
             of no concern to the model), 1 store.to_json_string, 2 ToJson::to_json_string(member idx,
             store config), 3 inherent member.to_json_string(), 4 ToJson::to_json_string(member idx,
             unrelated Config), 5 ToJson::to_json_string(member idx, store config) followed by
             store.to_json_string on the same thread, 6 store.to_json_file into a file of the thread's own
-            (same code path as 1), 7 store.to_json_string twice on the same thread
+            (same code path as 1), 7 store.to_json_string twice on the same thread,
+            8 resource.to_txt_file(<another directory>/<same name>), 9 resource.to_txt_file(<own stand-off filename>)
      sched  the thread chosen at every scheduling decision of the deterministic scheduler (one
             decision = the chosen thread performs the access it is blocked in front of and runs up to
             its next yield site), as executed by the harness
    one triple per thread: ((tokens) same finished) where tokens = how each member appears in the
    string(s) the thread obtained (2i inline, 2i+1 as @include, -7 end of a call when the thread makes
    several, -2 the call returned Err), same = equal to the solo result;
-   then one triple for the stand-off files: per member 1 if its file does not hold the member's
-   content after the run.
+   then one triple for the stand-off files: per member 1 if, after the run, some call has returned Ok
+   with the member written as @include while its stand-off file does not hold the member's content
+   (pending content is NOT on disk when the threads start), or something else than content was
+   written to it.
    A fifth element 1 marks a free run: the threads were started together without the scheduler
    (real pre-emption); there is no schedule to replay, and by C20_scenario the model's answer is
    the same for every schedule: the specified solo results.
@@ -45,6 +49,7 @@ Definition fkind_of (x : sx) : fkind :=
   | 2 => Json
   | 4 => Json
   | 5 => JsonBroken
+  | 6 => TxtBroken
   | _ => NoFile
   end.
 
@@ -58,6 +63,8 @@ Definition op_of (x : sx) : op :=
   | 5 => OpMemberThenStore i
   | 6 => OpStore
   | 7 => OpStoreTwice
+  | 8 => OpExport i
+  | 9 => OpSaveTxt i
   | _ => OpPure
   end.
 
@@ -104,6 +111,13 @@ Definition run_par (x : sx) : sx :=
             triple (L (map A (par_consumers l) ++ [A 1%Z])) (L (map A (seq_consumers l) ++ [A 1%Z])) 0)
          (sx_list (sx_nth 3 x))).
 
+(* a finished thread reports member i as @include, the flag was set at the start (pending content,
+   not on disk) and nobody has written the content *)
+Definition lost_update (sc : scen) (ts : list thread) (i : nat) : bool :=
+  flag i (changed0 sc)
+  && existsb (fun t => finished t && existsb (Nat.eqb (t_include i)) (out t)) ts
+  && negb (existsb (fun t => existsb (fun p => Nat.eqb (fst p) i && Nat.eqb (snd p) (t_inline i)) (fout t)) ts).
+
 Definition run_sched (x : sx) : sx :=
   let sc := scen_of x in
   let free := sx_bool (sx_nth 4 x) in
@@ -111,7 +125,7 @@ Definition run_sched (x : sx) : sx :=
   let st := run_coarse false sched (init sc) in
   let n := length (members sc) in
   L (triples sc (thr st) (ops sc)
-     ++ [triple (L (map (fun i => of_bool (file_bad (thr st) i)) (seq 0 n)))
+     ++ [triple (L (map (fun i => of_bool (file_bad (thr st) i || lost_update sc (thr st) i)) (seq 0 n)))
                 (L (map (fun _ => A 0%Z) (seq 0 n))) 0]).
 
 Definition run_C20 (x : sx) : sx :=
